@@ -108,7 +108,7 @@ NOTES = {
     "C15-s12": "first missed: protect entries added to the target after it was created",
     "C14-s11": "C14 first missed it (C17, C13, C11 caught it): M enqueues a task that waits for H's first task and cancels it again",
     "C14-s12": "first missed: per-id state query for another client's (the first) task",
-    "C12-s11": "**not detected**: the change adds a per-task `cores` request to the local backend (a new protocol field) and releases more than it took. The pool explorer drives `enqueue_task` with today's signature and never sends the new field; a CLI-level local-backend scenario with an oversized `cores` option and a live-process bound would be needed",
+    "C12-s11": "first missed (the change adds a per-task `cores` request to the local backend and releases more than it took; the pool explorer drives `enqueue_task` with today's signature): C12 got a CLI-level family — four targets asking for more cores than the pool has, run through the real Client on the bridged pool, every exit order, three rounds, with a bound on the processes alive at once",
     "C19-s11": "first missed: inputs found with Workflow.glob / iglob handed to template targets with a working directory of their own",
     "C19-s12": "C19 first missed it (C03 caught it): `~`, `$`, `%`, `*` in declared paths are plain characters (C19 path values; C03 `tilde` family)",
     "C07-s8": "first missed: the scheduler moves while gwf is submitting (one environment step before the k-th scheduler command of a run)",
